@@ -24,6 +24,7 @@ pub mod convert_case;
 pub mod verify;
 pub mod injection;
 pub mod lsp_requests;
+pub mod inspect;
 
 pub struct Ctx {
   pub seed: u64,
@@ -67,6 +68,7 @@ pub fn run(unit: &str, ctx: &Ctx, rng: &mut Rng, o: &mut Out) -> bool {
     "verify_run" => verify::verify_run(ctx, rng, o),
     "injection" => injection::injection(ctx, rng, o),
     "lsp_requests" => lsp_requests::lsp_requests(ctx, rng, o),
+    "inspect" => inspect::inspect(ctx, rng, o),
     "frontends_edit" => frontends::frontends_edit(ctx, rng, o),
     "frontends_findings" => frontends::frontends_findings(ctx, rng, o),
     "read_file" => worker::read_file(ctx, rng, o),
@@ -143,6 +145,9 @@ pub fn exec_op(op: &str, a: &serde_json::Value) -> serde_json::Value {
     return v;
   }
   if let Some(v) = lsp_requests::exec(op, a) {
+    return v;
+  }
+  if let Some(v) = inspect::exec(op, a) {
     return v;
   }
   serde_json::json!({"harness_error": format!("op {op} is not replayable stand-alone")})
